@@ -356,6 +356,90 @@ def check_many(acc, tier):
                         break
 
 
+def check_normalize_in_flight(acc):
+    """Two calls in flight on one NormalizeFieldKeys instance: the middleware logs a warning for every colliding key, and a
+    logging handler of the application uses the same instance on another entry while the outer call is inside that warning
+    (inline, or in a second thread it waits for).  Each entry is normalised from its own fields."""
+    import logging
+    import threading
+
+    from bibtexparser.middlewares import NormalizeFieldKeys
+
+    def ref_norm(src):
+        last, order = {}, []
+        for k, v in src:
+            if k.lower() not in last:
+                order.append(k.lower())
+            last[k.lower()] = v
+        return [(k, last[k]) for k in order]
+
+    outer_src = [("Title", "t1"), ("year", "y"), ("TITLE", "t2"), ("Author", "a1"), ("title", "t3"), ("author", "a2")]
+    inner_src = [("Note", "n1"), ("title", "other"), ("NOTE", "n2"), ("x", "1")]
+    mklib = lambda src, key: Library([Entry("a", key, [Field(k, v) for k, v in src])])
+
+    class Reenter(logging.Handler):
+        def __init__(self, call, at):
+            super().__init__()
+            self.call, self.at, self.seen, self.results, self.busy = call, at, 0, [], False
+
+        def createLock(self):
+            self.lock = None  # (no handler lock: the second thread logs through this handler while the first is inside emit)
+
+        def emit(self, record):
+            if self.busy:
+                return
+            if self.seen == self.at:
+                self.busy = True
+                try:
+                    self.results.append(self.call())
+                except Exception as ex:
+                    self.results.append(("raised", type(ex).__name__))
+                finally:
+                    self.busy = False
+            self.seen += 1
+
+    lg = logging.getLogger("bibtexparser")
+    was_disabled = logging.root.manager.disable
+    logging.disable(logging.NOTSET)
+    try:
+        for inplace in (True, False):
+            for at in (0, 1, 2):
+                for threaded in (False, True):
+                    case = {"normalize_in_flight": [inplace, at, threaded]}
+                    acc.trace(2)
+                    acc.case(nontrivial_key=("normalize-in-flight", inplace, at, threaded))
+                    acc.count("normalizations_in_flight")
+                    m = NormalizeFieldKeys(allow_inplace_modification=inplace)
+
+                    def inner():
+                        if not threaded:
+                            return pairs(m.transform(mklib(inner_src, "in")).blocks[0])
+                        box = []
+                        t = threading.Thread(target=lambda: box.append(pairs(m.transform(mklib(inner_src, "in")).blocks[0])))
+                        t.start()
+                        t.join()
+                        return box[0]
+
+                    h = Reenter(inner, at)
+                    lg.addHandler(h)
+                    try:
+                        got = pairs(m.transform(mklib(outer_src, "out")).blocks[0])
+                    except Exception as ex:
+                        acc.exception(ex, case, "NormalizeFieldKeys.transform")
+                        continue
+                    finally:
+                        lg.removeHandler(h)
+                    acc.step(("normalize", inplace), ("inner at record", at, threaded), tuple(got))
+                    if not h.results:
+                        acc.harness_error(f"the handler was not reached: {case}")
+                    elif got != ref_norm(outer_src):
+                        acc.violation({"oracle": "outer_call_unaffected_by_a_call_in_flight", "middleware": "normalize"}, {"case": case, "observed": got, "expected": ref_norm(outer_src)})
+                    elif h.results[0] != ref_norm(inner_src):
+                        acc.violation({"oracle": "inner_call_in_flight_equals_call_alone", "middleware": "normalize"}, {"case": case, "observed": repr(h.results[0]), "expected": ref_norm(inner_src)})
+    finally:
+        logging.disable(was_disabled)
+
+
 def check_ctor(acc):
     for order, cs in CUSTOM:
         folded = list(order) if cs else [k.lower() for k in order]
@@ -471,6 +555,7 @@ def run_shard(shard, tier, acc):
         check_shared_fields(acc)
         return
     if shard[0] == "many":
+        check_normalize_in_flight(acc)
         return check_many(acc, tier)
     if shard[0] == "spellings":
         check_spellings(acc, shard[1])
@@ -542,6 +627,8 @@ def run_shard(shard, tier, acc):
 def replay(case, acc):
     if "construction_order" in case:
         check_construction_order(acc)
+    elif "normalize_in_flight" in case:
+        check_normalize_in_flight(acc)
     elif "many" in case:
         check_many(acc, "quick" if case["many"] <= 1025 else "thorough")
     elif "shared_fields" in case:
